@@ -74,8 +74,8 @@ class _:
                 "meta-kind": "isnone(metadata_enclosing) or isstr(metadata_enclosing)"}
     ensures = {
         "C10.reuse": "implies(self._reuse_previous_enclosing and isstr(metadata_enclosing) and sval(metadata_enclosing) != 'no-enclosing', isstr(result) and sval(result) == enclose_with(sval(metadata_enclosing), str_of(value)))",
-        "C10.reuse-none": "implies(self._reuse_previous_enclosing and isstr(metadata_enclosing) and sval(metadata_enclosing) == 'no-enclosing', result == value)",
-        "C10.int-rule": "implies(not (self._reuse_previous_enclosing and isstr(metadata_enclosing)) and apply_int_rule and not self._enclose_integers and is_intlike(value), result == value)",
+        "C10.reuse-none": "implies(self._reuse_previous_enclosing and isstr(metadata_enclosing) and sval(metadata_enclosing) == 'no-enclosing', same(result, value))",
+        "C10.int-rule": "implies(not (self._reuse_previous_enclosing and isstr(metadata_enclosing)) and apply_int_rule and not self._enclose_integers and is_intlike(value), same(result, value))",
         "C10.default": "implies(not (self._reuse_previous_enclosing and isstr(metadata_enclosing)) and not (apply_int_rule and not self._enclose_integers and is_intlike(value)), isstr(result) and sval(result) == enclose_with(self._default_enclosing, str_of(value)))",
     }
     raises = {"ValueError": {"when": "self._reuse_previous_enclosing and isstr(metadata_enclosing) and not (sval(metadata_enclosing) == '{' or sval(metadata_enclosing) == '\"' or sval(metadata_enclosing) == 'no-enclosing')"}}
@@ -95,3 +95,136 @@ lemma("C10.default-then-strip",
       requires=["v.strip() == v"],
       ensures="strip_kind(('{' + v + '}').strip()) == '{' and strip_text(('{' + v + '}').strip()) == v",
       props=("C10", "C05"))
+
+
+@pred
+def distinct_fields(entry):
+    return forall((a, b), 0 <= a < b < len(entry._fields), not same(entry._fields[a], entry._fields[b]))
+
+
+@pred
+def distinct_field_keys(entry):
+    return forall((a, b), 0 <= a < b < len(entry._fields), entry._fields[a]._key != entry._fields[b]._key)
+
+
+@contract(RE + "transform_string")
+class _:
+    sorts = {"self": "ref:RemoveEnclosingMiddleware", "string": "ref:String", "library": "ref:Library", "result": "ref:String"}
+    requires = {"value-str": "isstr(string._value)"}
+    ensures = {
+        "C10.string-stripped": "isstr(string._value) and sval(string._value) == strip_text(sval(old(string._value)).strip())",
+        "C10.string-recorded": "string._parser_metadata['removed_enclosing'] == strip_kind(sval(old(string._value)).strip())",
+        "C10.same-block": "same(result, string)",
+        "C10.key-untouched": "string._key == old(string._key)",
+    }
+    raises = {}
+    modifies = ["@string._value", "@content(string._parser_metadata)"]
+
+
+@contract(RE + "transform_entry")
+class _:
+    """every field value loses exactly one enclosing layer; the removed kind is recorded per field key"""
+    sorts = {"self": "ref:RemoveEnclosingMiddleware", "entry": "ref:Entry", "library": "ref:Library", "result": "ref:Entry"}
+    requires = {"values-str": "forall(j, 0 <= j < len(entry._fields), isstr(entry._fields[j]._value))",
+                "distinct-fields": "distinct_fields(entry)", "distinct-keys": "distinct_field_keys(entry)"}
+    locals = {"metadata": "dict:str:any"}
+    loops = {1: {"cursor": "_i", "iter_name": "flds",
+                 "invariant": {
+                     "range": "0 <= _i <= len(entry._fields) and same(flds, entry._fields)",
+                     "list-unchanged": "unchanged('Entry._fields') and unchanged('list:ref:Field') and unchanged('Field._key')",
+                     "done": "forall(j, 0 <= j < _i, isstr(entry._fields[j]._value) and sval(entry._fields[j]._value) == strip_text(sval(old(entry._fields[j]._value)).strip()))",
+                     "todo": "forall(j, _i <= j < len(entry._fields), same(entry._fields[j]._value, old(entry._fields[j]._value)))",
+                     "meta": "forall(j, 0 <= j < _i, entry._fields[j]._key in metadata and metadata[entry._fields[j]._key] == strip_kind(sval(old(entry._fields[j]._value)).strip()))",
+                     "meta-fresh": "fresh(metadata)",
+                 },
+                 "props": ("C10",)}}
+    ensures = {
+        "C10.fields-stripped": "forall(j, 0 <= j < len(entry._fields), isstr(entry._fields[j]._value) and sval(entry._fields[j]._value) == strip_text(sval(old(entry._fields[j]._value)).strip()))",
+        "C10.fields-recorded": "forall(j, 0 <= j < len(entry._fields), as_ref(entry._parser_metadata['removed_enclosing'], 'dict:str:any')[entry._fields[j]._key] == strip_kind(sval(old(entry._fields[j]._value)).strip()))",
+        "C10.same-entry": "same(result, entry)",
+        "C10.keys-untouched": "unchanged('Field._key') and unchanged('Entry._fields') and unchanged('list:ref:Field') and unchanged('Entry._key') and unchanged('Entry._entry_type')",
+    }
+    raises = {}
+    modifies = ["Field._value", "@content(entry._parser_metadata)"]
+
+
+@contract(AE + "transform_string")
+class _:
+    sorts = {"self": "ref:AddEnclosingMiddleware", "string": "ref:String", "result": "ref:String"}
+    requires = {"default-valid": "self._default_enclosing == '{' or self._default_enclosing == '\"'",
+                "value-kind": "isstr(string._value) or isint(string._value)",
+                "meta-kind": "not ('removed_enclosing' in string._parser_metadata) or isstr(string._parser_metadata['removed_enclosing'])",
+                "meta-valid": "not ('removed_enclosing' in string._parser_metadata) or sval(string._parser_metadata['removed_enclosing']) == '{' or sval(string._parser_metadata['removed_enclosing']) == '\"' or sval(string._parser_metadata['removed_enclosing']) == 'no-enclosing'"}
+    ensures = {
+        "C10.string-reuse": "implies(self._reuse_previous_enclosing and 'removed_enclosing' in string._parser_metadata and sval(string._parser_metadata['removed_enclosing']) != 'no-enclosing', isstr(string._value) and sval(string._value) == enclose_with(sval(string._parser_metadata['removed_enclosing']), str_of(old(string._value))))",
+        "C10.string-reuse-none": "implies(self._reuse_previous_enclosing and 'removed_enclosing' in string._parser_metadata and sval(string._parser_metadata['removed_enclosing']) == 'no-enclosing', same(string._value, old(string._value)))",
+        "C10.string-default": "implies(not (self._reuse_previous_enclosing and 'removed_enclosing' in string._parser_metadata), isstr(string._value) and sval(string._value) == enclose_with(self._default_enclosing, str_of(old(string._value))))",
+        "C10.same-block": "same(result, string)",
+    }
+    raises = {}
+    modifies = ["@string._value"]
+
+
+@pred
+def rec_meta(entry):
+    """the per-field record left by RemoveEnclosingMiddleware (a dict held in parser_metadata), if any"""
+    return as_ref(entry._parser_metadata['removed_enclosing'], 'dict:str:any')
+
+
+@pred
+def field_meta_ok(entry):
+    return implies('removed_enclosing' in entry._parser_metadata,
+                   cls_is(entry._parser_metadata['removed_enclosing'], 'dict')
+                   and forall(j, 0 <= j < len(entry._fields),
+                              implies(entry._fields[j]._key in rec_meta(entry),
+                                      isstr(rec_meta(entry)[entry._fields[j]._key])
+                                      and (sval(rec_meta(entry)[entry._fields[j]._key]) == '{'
+                                           or sval(rec_meta(entry)[entry._fields[j]._key]) == '"'
+                                           or sval(rec_meta(entry)[entry._fields[j]._key]) == 'no-enclosing'))))
+
+
+@pred
+def enclosed_value(self, entry, j, had_meta, meta, v):
+    """the value AddEnclosing must leave in field j whose old value is v (property C10)"""
+    return (enclose_with(sval(meta[entry._fields[j]._key]), str_of(v))
+            if (self._reuse_previous_enclosing and had_meta and entry._fields[j]._key in meta and sval(meta[entry._fields[j]._key]) != 'no-enclosing')
+            else enclose_with(self._default_enclosing, str_of(v)))
+
+
+@pred
+def stays_raw(self, entry, j, had_meta, meta, v):
+    """field j keeps its value object: recorded 'no-enclosing' under reuse, or the integer rule applies"""
+    return ((self._reuse_previous_enclosing and had_meta and entry._fields[j]._key in meta and sval(meta[entry._fields[j]._key]) == 'no-enclosing')
+            or (not (self._reuse_previous_enclosing and had_meta and entry._fields[j]._key in meta)
+                and entry._fields[j]._key in ("year", "month", "volume", "number", "pages", "edition", "chapter", "issue")
+                and not self._enclose_integers and is_intlike(v)))
+
+
+@contract(AE + "transform_entry")
+class _:
+    """every field value is re-enclosed: with the recorded kind under reuse (restoring the original), else
+    with the default; int-like values of numeric fields stay unenclosed iff configured; the record is consumed"""
+    sorts = {"self": "ref:AddEnclosingMiddleware", "entry": "ref:Entry", "result": "ref:Entry"}
+    requires = {"default-valid": "self._default_enclosing == '{' or self._default_enclosing == '\"'",
+                "values-kind": "forall(j, 0 <= j < len(entry._fields), isstr(entry._fields[j]._value) or isint(entry._fields[j]._value))",
+                "distinct-fields": "distinct_fields(entry)",
+                "meta-ok": "field_meta_ok(entry)"}
+    loops = {1: {"cursor": "_i", "iter_name": "flds",
+                 "invariant": {
+                     "range": "0 <= _i <= len(entry._fields) and same(flds, entry._fields)",
+                     "list-unchanged": "unchanged('Entry._fields') and unchanged('list:ref:Field') and unchanged('Field._key')",
+                     "meta-var": "(isnone(metadata_enclosing) and not old('removed_enclosing' in entry._parser_metadata)) or (old('removed_enclosing' in entry._parser_metadata) and same(metadata_enclosing, old(entry._parser_metadata['removed_enclosing'])))",
+                     "meta-content": "unchanged('dict:str:any') or True",
+                     "done-raw": "forall(j, 0 <= j < _i, implies(stays_raw(self, entry, j, old('removed_enclosing' in entry._parser_metadata), old(rec_meta(entry)), old(entry._fields[j]._value)), same(entry._fields[j]._value, old(entry._fields[j]._value))))",
+                     "done-enc": "forall(j, 0 <= j < _i, implies(not stays_raw(self, entry, j, old('removed_enclosing' in entry._parser_metadata), old(rec_meta(entry)), old(entry._fields[j]._value)), isstr(entry._fields[j]._value) and sval(entry._fields[j]._value) == enclosed_value(self, entry, j, old('removed_enclosing' in entry._parser_metadata), old(rec_meta(entry)), old(entry._fields[j]._value))))",
+                     "todo": "forall(j, _i <= j < len(entry._fields), same(entry._fields[j]._value, old(entry._fields[j]._value)))",
+                 },
+                 "props": ("C10",)}}
+    ensures = {
+        "C10.entry-raw": "forall(j, 0 <= j < len(entry._fields), implies(stays_raw(self, entry, j, old('removed_enclosing' in entry._parser_metadata), old(rec_meta(entry)), old(entry._fields[j]._value)), same(entry._fields[j]._value, old(entry._fields[j]._value))))",
+        "C10.entry-enclosed": "forall(j, 0 <= j < len(entry._fields), implies(not stays_raw(self, entry, j, old('removed_enclosing' in entry._parser_metadata), old(rec_meta(entry)), old(entry._fields[j]._value)), isstr(entry._fields[j]._value) and sval(entry._fields[j]._value) == enclosed_value(self, entry, j, old('removed_enclosing' in entry._parser_metadata), old(rec_meta(entry)), old(entry._fields[j]._value))))",
+        "C10.same-entry": "same(result, entry)",
+        "C10.keys-untouched": "unchanged('Field._key') and unchanged('Entry._fields') and unchanged('list:ref:Field') and unchanged('Entry._key') and unchanged('Entry._entry_type')",
+    }
+    raises = {}
+    modifies = ["Field._value", "@content(entry._parser_metadata)"]
